@@ -111,6 +111,22 @@ def make_cases(seed, tier):
         for n in (2 ** 32 + 1000, 2 ** 32 + 5000, 2 ** 32 + 99999, 2 ** 33 + 1000, 2 ** 64 + 1000, 10 ** 9, 10 ** 10 + 1000):
             cases.append(("rounds-above-max/" + ("sha256crypt" if t == b"$5$" else "sha512crypt"), b"pw",
                           t + b"rounds=%d$saltsalt" % n, rng.choice(entries), "="))
+    # scrypt salts with several '$': a character outside the alphabet behind the FIRST '$' is still inside the salt
+    for k in range(24):
+        bad = bytes([rng.choice(b"=-+,@^_~#%")])
+        a, b_, c = gen.rsalt(rng, rng.randint(1, 9)), gen.rsalt(rng, rng.randint(1, 6)), gen.rsalt(rng, rng.randint(1, 9))
+        s = b"$7$" + rng.choice([b"2/..../....", b"3/....0...."]) + a + b"$" + b_ + bad + c + b"$" + rng.choice([b"", gen.rsalt(rng, 43)])
+        cases.append(("scrypt-salt-char/scrypt", b"pw", s, rng.choice(entries), "="))
+    # bcrypt cost fields that are not two decimal digits in 04..31: every pair of characters around the digits in
+    # ASCII (a computed "digit value" of a neighbouring character can cancel out or alias a valid cost)
+    chars = bytes(range(0x2b, 0x41))
+    for tag in (b"$2b$", b"$2a$", b"$2y$", b"$2x$"):
+        for a in chars:
+            for b in chars:
+                f = bytes([a, b])
+                if (f.isdigit() and 4 <= int(f) <= 31) or tag != b"$2b$" and (a + b) % 7:
+                    continue
+                cases.append(("bcrypt-cost/" + gen.classify(tag + b"04$"), b"pw", tag + f + b"$abcdefghijklmnopqrstuu", rng.choice(entries), "="))
     # random mutations (may succeed or fail: shape only)
     nm = 4000 if quick else 60000
     for i in range(nm):
